@@ -556,6 +556,23 @@ static void parseEmit(void *inFrame, lltd_iface_state *st, void *iface_ctx) {
     int numDescs = (int)lltd_ntohs(emitHeader->numDescs);
     uint16_t offsetEmitee = 0;
 
+    /*
+     * The core is not told the received length, only that the frame sits in an MTU-sized
+     * buffer: never walk more descriptors than such a frame can carry, whatever the count
+     * field claims.
+     */
+    size_t mtu = 0;
+    if (lltd_port_get_mtu(iface_ctx, &mtu) != 0 || mtu == 0) {
+        mtu = 1500;
+    }
+    size_t fixedPart = sizeof(*lltdHeader) + sizeof(*emitHeader);
+    int maxDescs = (mtu > fixedPart) ? (int)((mtu - fixedPart) / sizeof(emitee_descs)) : 0;
+    if (numDescs > maxDescs) {
+        log_warning("parseEmit: descriptor count %d exceeds what the frame can hold (%d), truncating",
+                    numDescs, maxDescs);
+        numDescs = maxDescs;
+    }
+
     for (int i = 0; i < numDescs; i++) {
         bool ack = (i == numDescs - 1);
         emitee_descs *emitee = (emitee_descs *)((uint8_t *)emitHeader + sizeof(*emitHeader) + offsetEmitee);
